@@ -289,6 +289,9 @@ type Hooks struct {
 	RawName  string            // label prefix of raw operations (the name a Bucket wrapper would have)
 	rawFinal map[string]string // temp file name -> final path, for labels
 	wrapped  map[string]bool   // files created through a Bucket wrapper
+	// AtomicFinals, when non-nil, collects the final OS path of every object storageos created through
+	// a temporary file (an atomic put), whoever asked for it
+	AtomicFinals map[string]bool
 
 	mu          sync.Mutex
 	createdName string
@@ -407,6 +410,13 @@ func (h *Hooks) restoreRename(name string) {
 func (h *Hooks) Point(ctx context.Context, name string, args []string) {
 	switch name {
 	case "os.put.created":
+		if args[1] != "" {
+			h.mu.Lock()
+			if h.AtomicFinals != nil {
+				h.AtomicFinals[args[1]] = true
+			}
+			h.mu.Unlock()
+		}
 		if h.RawRoot != "" && args[1] != "" && strings.HasPrefix(args[0], h.RawRoot+string(filepath.Separator)) {
 			h.mu.Lock()
 			h.rawFinal[args[0]] = args[1]
